@@ -94,10 +94,10 @@ def to_coq(name, h):
                     ["(mkIA %s %s)" % (blist(a.split("_")[0]), blist(a.split("_")[1])) for a in items("+", addrs)])))
             ifs = coq_list(lst)
         elif t.startswith("I:"):
-            _, d, now, wake, jit, calls, dgs = t.split(":")
-            its.append("(mkIter %s %s %s %s)" % (now, coq_list([coq_dgram(x) for x in items(";", dgs)]),
-                                                 coq_list([coq_call(x) for x in items(";", calls)]),
-                                                 coq_list(items(".", jit))))
+            _, d, now, wake, jit, calls, dgs, mif = t.split(":")
+            its.append("(mkIter %s %s %s %s %s)" % (now, coq_list([coq_dgram(x) for x in items(";", dgs)]),
+                                                    coq_list([coq_call(x) for x in items(";", calls)]),
+                                                    coq_list(items(".", jit)), "None" if mif == "n" else "(Some %s)" % mif))
     out = ["(* %s : %s *)" % (name, h.get("doc", ""))]
     out.append("Definition %s_ifs : list intf := %s." % (name, ifs))
     out.append("Definition %s_its : list iter :=\n  [ %s ]." % (name, ";\n    ".join(its)))
